@@ -292,6 +292,29 @@ func loadContext(wantPkgs []string, fileOverlay map[string][]byte, findings *Fin
 	if err != nil {
 		return nil, err
 	}
+	if broke := c.isolateBrokenContracts(pkgs); broke > 0 {
+		// contracts that no longer type-check against this tree (a local they name changed its type, a function changed
+		// its signature) are set aside - each decides nothing here - and the rest is loaded again
+		for pp, path := range c.genFiles {
+			// cut the lowered functions of the broken contracts out of the generated file (from their marker to the next)
+			var out []string
+			skip := false
+			for _, line := range strings.Split(string(c.overlay[path]), "\n") {
+				var ci int
+				if _, err := fmt.Sscanf(line, "// gocv:contract %d", &ci); err == nil {
+					skip = ci < len(c.contracts[pp]) && c.contracts[pp][ci].Broken != ""
+				}
+				if !skip {
+					out = append(out, line)
+				}
+			}
+			c.overlay[path] = []byte(strings.Join(out, "\n"))
+		}
+		pkgs, err = packages.Load(cfg, wantPkgs...)
+		if err != nil {
+			return nil, err
+		}
+	}
 	if n := packages.PrintErrors(pkgs); n > 0 {
 		return nil, fmt.Errorf("%d errors loading packages with generated contracts", n)
 	}
@@ -348,4 +371,36 @@ func (c *Context) lookupFunc(sp *ssa.Package, name string) *ssa.Function {
 		fn = next
 	}
 	return fn
+}
+
+// isolateBrokenContracts attributes type errors inside generated contract files to the contract whose lowered functions
+// contain them (marker comments written by generateOverlay) and marks those contracts broken. It returns their number.
+func (c *Context) isolateBrokenContracts(pkgs []*packages.Package) int {
+	n := 0
+	packages.Visit(pkgs, nil, func(p *packages.Package) {
+		gen, ok := c.genFiles[p.PkgPath]
+		if !ok {
+			return
+		}
+		lines := strings.Split(string(c.overlay[gen]), "\n")
+		for _, e := range p.Errors {
+			file, rest, ok := strings.Cut(e.Pos, ":")
+			if !ok || file != gen {
+				continue
+			}
+			var ln int
+			fmt.Sscanf(rest, "%d", &ln)
+			for i := ln - 1; i >= 0 && i < len(lines); i-- {
+				var ci int
+				if _, err := fmt.Sscanf(lines[i], "// gocv:contract %d", &ci); err == nil {
+					if ci < len(c.contracts[p.PkgPath]) && c.contracts[p.PkgPath][ci].Broken == "" {
+						c.contracts[p.PkgPath][ci].Broken = "the contract no longer type-checks against this tree: " + e.Msg
+						n++
+					}
+					break
+				}
+			}
+		}
+	})
+	return n
 }
